@@ -178,7 +178,6 @@ Proof.
 Qed.
 
 (* ---------------------------------------------------------------- from the reader's shapes to WrapTokP's *)
-Definition ind_pos (ind : indentation) : Prop := match ind with Spaces n => (n =? 0)%N = false | FieldNameLength => True end.
 
 Lemma ind_after_pos cs : forallb etok cs = true -> forall ind, ind_pos ind -> ind_pos (ind_after ind cs).
 Proof.
@@ -221,7 +220,6 @@ Qed.
 
 (* ---------------------------------------------------------------- the content of a reformatted token paragraph / document *)
 From V.proofs Require Import Deb822EditP.
-Definition epair (e : tree) : list (str * str) := match entry_key e with Some k => [(k, entry_value e)] | None => [] end.
 
 Lemma pitems_loose l : forallb loose l = true -> pitems l = [].
 Proof.
@@ -360,4 +358,27 @@ Proof.
   destruct (token_doc_ws ind iel mll psort esort t Ht Hes Hps) as (A & _ & C). fold R in A, C.
   destruct t as [|k rs]; [discriminate|]. destruct k; try discriminate. cbn [token_doc children] in *.
   destruct (d_out_items ind iel mll psort esort rs Ht Hes) as [D1 D2]. repeat split; assumption.
+Qed.
+
+(* the content of the reformatted document without any reference to the reformatting of an entry:
+   grouping (p_groups / d_groups), the caller's comparators, the fields as reported (epair) *)
+Theorem error_free_content s t ind iel mll psort esort : from_str s = Ok t -> ind_pos ind ->
+  esort_ok ind iel mll esort ->
+  doc_items t = map (fun g => flat_map (fun e => epair (snd e)) (fst (p_groups (children (snd g)) [])))
+                    (fst (d_groups (children t) [])) /\
+  doc_items (d_out ind iel mll psort esort (children t)) =
+    map (fun g => flat_map (fun e => epair (snd e)) (sort_opt (option_map on_snd esort) (fst (p_groups (children (snd g)) []))))
+        (sort_opt (option_map on_snd psort) (fst (d_groups (children t) []))).
+Proof.
+  intros Hs Hi Hes. pose proof (error_free_is_token_doc s t ind Hs Hi) as Ht.
+  destruct t as [|k rs]; [discriminate|]. destruct k; try discriminate. cbn [token_doc children] in *.
+  destruct (d_out_items ind iel mll psort esort rs Ht Hes) as [D1 D2].
+  destruct (d_groups_props ind rs [] Ht eq_refl) as [Hg _].
+  assert (Hp : forall g, In g (fst (d_groups rs [])) -> exists ps, snd g = Node PARAGRAPH ps /\ forallb (pchild_ok ind) ps = true).
+  { intros g Hin. destruct (Hg g Hin) as [_ P]. destruct (snd g) as [|k ps]; [discriminate|]. destruct k; try discriminate. exists ps. split; [reflexivity|exact P]. }
+  split.
+  - rewrite D1. apply map_ext_in. intros g Hin. destruct (Hp g Hin) as (ps & E & P). rewrite E. cbn [children].
+    exact (proj1 (p_out_items ind iel mll esort ps P)).
+  - rewrite D2. apply map_ext_in. intros g Hin. destruct (Hp g (sort_opt_In _ _ _ Hin)) as (ps & E & P). rewrite E. cbn [children].
+    exact (proj2 (p_out_items ind iel mll esort ps P)).
 Qed.
